@@ -18,7 +18,8 @@ SPEC = {
     "design_ref": "DESIGN.md section 5, C12",
     "rule": ("Part B: states = canonical dictionary-model states (vars with (lb,ub,type), objective, pending fix/lb queues) reached by "
              "BFS over the alphabet {addI, addC, obj(pattern,sense), fix(v,val), lb(v,val), opt}; one case per model transition "
-             "(shortest history to the state + the operation + a closing optimize), replayed on the real wrapper; Part A: one case per "
+             "(shortest history to the state + the operation + a closing optimize), replayed on the real wrapper under every wrapper configuration "
+             "of {default, time_limit, time_limit + use_also_custom_timeout} (the latter two for histories with >= 2 optimize calls); Part A: one case per "
              "(helper, ub, lb) enumerating every admissible (integer value, continuous grid value) and every range list; "
              "non-trivial = distinct replayed history containing >=1 queue operation or objective replacement, or a product case with both factors non-zero"),
     "assumptions": [
@@ -33,7 +34,8 @@ GRID = lambda lb, ub: sorted({lb, lb + (ub - lb) / 3.0, (lb + ub) / 2.0, ub})  #
 
 def bounds(tier):
     return {"partA_ub": [0, 1, 2, 3, 4, 5, 6, 7, 8, 9, 2.5, 0.5], "partA_lb_binary": [0, 1], "ranges_within": [0, 6],
-            "partB_depth": 5 if tier == "quick" else 6, "partB_max_vars": 2}
+            "partB_depth": 5 if tier == "quick" else 6, "partB_max_vars": 2,
+            "partB_wrapper_configurations": [c[0] for c in WRAPPER_CFGS]}
 
 
 # ----------------------------------------------------------------------------------------------
@@ -167,9 +169,16 @@ def cases(tier, seed):
 # replay on the real wrapper
 # ----------------------------------------------------------------------------------------------
 
-def _replay_history(sw, hist, viol, tags):
+# wrapper configurations every history is replayed under: the optimize() route differs (plain call / call under the wrapper's own
+# SIGALRM timeout), the relation between what was posted and what is read back must not
+WRAPPER_CFGS = [("default", {}),
+                ("time_limit", {"time_limit": 600}),
+                ("custom_timeout", {"time_limit": 600, "use_also_custom_timeout": True})]
+
+
+def _replay_history(sw, hist, viol, tags, cfg=("default", {})):
     import numpy as np
-    s = sw.SolverWrapper(threads=1)
+    s = sw.SolverWrapper(threads=1, **cfg[1])
     m = Model()
     hv = []  # real variables
     hist = list(hist)
@@ -267,11 +276,21 @@ def run(case):
     states = transitions = traces = 0
     if part == "hist":
         states = case.get("n_states_total", 0)
+        from mc import runner
         for h in case["histories"]:
-            if _replay_history(sw, h, viol, tags):
-                nt += 1
+            for cfg in WRAPPER_CFGS:
+                if cfg[0] != "default" and sum(1 for op in h if op[0] == "opt") + (h[-1][0] != "opt") < 2:
+                    continue  # the optimize() route can only matter to what a LATER optimize() / read-back sees
+                nv = len(viol)
+                if _replay_history(sw, h, viol, tags, cfg):
+                    nt += 1
+                for v in viol[nv:]:
+                    v["msg"] = f"[wrapper options {cfg[1]}] " + v["msg"]
+                tags["replays_" + cfg[0]] += 1
+                traces += 1
+                if cfg[0] == "custom_timeout":
+                    runner.rearm()
             transitions += 1
-            traces += 1
             if len(viol) > 3:
                 break
     elif part == "binprod":
